@@ -140,6 +140,11 @@ impl World {
         }
     }
 
+    pub fn create_account(&mut self, a: &[u8]) {
+        let a = addr(a);
+        self.ensure_account(&a);
+    }
+
     fn logs_str(logs: &[TxLog]) -> String {
         let mut out = vec![];
         for l in logs {
